@@ -37,6 +37,7 @@ def includeMissing : Bytes := [105, 110, 99, 108, 117, 100, 101, 45, 109, 105, 1
 inductive Err
   | lockContention | tokenMismatch | noSuchRevision | noSuchTag | protocol
   | readOnly | lockNotHeld | diverged          -- session model (Model/C32S.lean)
+  | notWriteLocked | ownerBusy | ownerNotHeld | ownerLent | ownerLockGone   -- harness-level guards of the session streams
   deriving DecidableEq, Repr
 
 def Err.toString : Err → String
@@ -48,6 +49,11 @@ def Err.toString : Err → String
   | .readOnly => "E:ReadOnlyError"
   | .lockNotHeld => "E:LockNotHeld"
   | .diverged => "E:DivergedBranches"
+  | .notWriteLocked => "E:NotWriteLocked"
+  | .ownerBusy => "E:OwnerBusy"
+  | .ownerNotHeld => "E:OwnerNotHeld"
+  | .ownerLent => "E:OwnerLent"
+  | .ownerLockGone => "E:OwnerLockGone"
 
 structure St where
   revs : Graph                       -- revisions stored in the target repository
@@ -57,6 +63,7 @@ structure St where
   lock : Option Nat                  -- token of the physical branch lock, if held
   nextTok : Nat
   known : Option Nat                 -- the token the script remembers from its last `lockLeave`
+  owner : Option Nat := none         -- session model: token held by a SECOND holder object (Model/C32S.lean)
   deriving DecidableEq, Repr
 
 def St.init : St :=
@@ -269,6 +276,11 @@ def errName : Err → Bytes
   | .readOnly => [82, 101, 97, 100, 79, 110, 108, 121, 69, 114, 114, 111, 114]
   | .lockNotHeld => [76, 111, 99, 107, 78, 111, 116, 72, 101, 108, 100]
   | .diverged => [68, 105, 118, 101, 114, 103, 101, 100]
+  | .notWriteLocked => [78, 87, 76]
+  | .ownerBusy => [79, 66]
+  | .ownerNotHeld => [79, 78, 72]
+  | .ownerLent => [79, 76]
+  | .ownerLockGone => [79, 76, 71]
 
 def decErr (b : Bytes) : Err :=
   if b = errName .lockContention then .lockContention
@@ -278,6 +290,11 @@ def decErr (b : Bytes) : Err :=
   else if b = errName .readOnly then .readOnly
   else if b = errName .lockNotHeld then .lockNotHeld
   else if b = errName .diverged then .diverged
+  else if b = errName .notWriteLocked then .notWriteLocked
+  else if b = errName .ownerBusy then .ownerBusy
+  else if b = errName .ownerNotHeld then .ownerNotHeld
+  else if b = errName .ownerLent then .ownerLent
+  else if b = errName .ownerLockGone then .ownerLockGone
   else .protocol
 
 def okBytes : Bytes := [111, 107]
